@@ -709,6 +709,56 @@ def stores_of(ctx, t):
     return out
 
 
+def value_members(ctx, t):
+    """the alternatives a value can be: phi members, and the arms of a conditional expression together with its test
+    -> [(test or None, polarity, value)]"""
+    out = []
+    for m in phi_members(ctx, t):
+        h = ctx.head_of(m)
+        if h and h[0] == "ifexp":
+            c, a, b = ctx.args_of(m)
+            out += [(c, True, x) for _, _, x in value_members(ctx, a)] + [(c, False, x) for _, _, x in value_members(ctx, b)]
+        else:
+            out.append((None, None, m))
+    return out
+
+
+def mapping_entries(ctx, t):
+    """the entries a dictionary-valued term is built from, whatever the style: element stores layered on an empty dict, a
+    dict comprehension, a dict literal, alternatives of these -> [(key term, value term, filter terms of the comprehension)]"""
+    out = []
+
+    def rec(x, depth=0):
+        h = ctx.head_of(x)
+        if not h or depth > 50:
+            return
+        if h[0] == "store":
+            b, i, v = ctx.args_of(x)
+            rec(b, depth + 1)
+            out.append((i, v, []))
+        elif h[0] in ("phi", "gphi"):
+            args = ctx.args_of(x)
+            for y in (args if h[0] == "phi" else args[1::2]):
+                rec(y, depth + 1)
+        elif h[0] == "ifexp":
+            for y in ctx.args_of(x)[1:]:
+                rec(y, depth + 1)
+        elif h[0] == "dictcomp":
+            args = ctx.args_of(x)
+            k, v = ctx.args_of(args[0])
+            conds = []
+            for g in args[1:]:
+                conds += list(ctx.args_of(g)[1:])
+            out.append((k, v, conds))
+        elif h[0] == "dict":
+            for it in ctx.args_of(x):
+                if ctx.head_of(it) == ("item",):
+                    k, v = ctx.args_of(it)
+                    out.append((k, v, []))
+    rec(t)
+    return out
+
+
 # ============================================================================ role-based statement lookup
 def simple_assigns(v, stmts=None):
     """[(stmt, target name, value term)] for `name = value` statements (names are reported, never matched)"""
@@ -872,6 +922,111 @@ def _eval_bool(ctx, t, env, props=None):
     return (not b) if neg else b
 
 
+def _compile_bool(ctx, t, idset, memo):
+    """_eval_bool(ctx, t, env, props) as a closure f(env, props) built once per term: the case analysis on the shape of the
+    term (and the propositional key of every opaque sub-term) is done here and not once per assignment"""
+    k = t.key()
+    if k in memo:
+        return memo[k]
+
+    def numeric_possible(r):
+        for p in (r.num, r.den):
+            for m in p:
+                for a, e in m:
+                    if a not in idset:
+                        hd = ctx.atoms[a][0]
+                        if not (hd[0] == "const" and isinstance(hd[1], (int, float)) and not isinstance(hd[1], bool)):
+                            return False
+        return True
+
+    def generic(t):
+        num_ok = numeric_possible(t)
+        len_of = None
+        for aid in idset:
+            hd, ar = ctx.atoms[aid]
+            if hd[0] == "call" and hd[1] == "len" and len(ar) == 1 and ctx.eq(ar[0], t):
+                len_of = aid
+                break
+        key, neg = _prop_key(ctx, t)
+
+        def f(env, props):
+            if num_ok:
+                val = _eval_rat(ctx, t, env)
+                if val is not None:
+                    return bool(val)
+            if len_of is not None and len_of in env:
+                return env[len_of] != 0
+            if props is None:
+                return None
+            if key not in props:
+                props[key] = None
+                return None
+            b = props[key]
+            if b is None:
+                return None
+            return (not b) if neg else b
+        return f
+
+    h = ctx.head_of(t)
+    f = None
+    if h is not None:
+        a = ctx.args_of(t)
+        if h[0] == "const" and isinstance(h[1], bool):
+            val = h[1]
+            f = lambda env, props: val          # noqa: E731
+        elif h[0] in ("and", "or"):
+            subs = [_compile_bool(ctx, x, idset, memo) for x in a]
+            is_and = h[0] == "and"
+
+            def f(env, props, subs=subs, is_and=is_and):
+                vals = [g(env, props) for g in subs]
+                if None in vals:
+                    return None
+                return all(vals) if is_and else any(vals)
+        elif h[0] == "not":
+            g = _compile_bool(ctx, a[0], idset, memo)
+
+            def f(env, props, g=g):
+                x = g(env, props)
+                return None if x is None else not x
+        elif h[0] == "cmp" and h[1] in ("eq", "ne", "lt", "le"):
+            fallback = generic(t)
+            if numeric_possible(a[0]) and numeric_possible(a[1]):
+                op = h[1]
+
+                def f(env, props, a=a, op=op, fallback=fallback):
+                    x, y = _eval_rat(ctx, a[0], env), _eval_rat(ctx, a[1], env)
+                    if x is not None and y is not None:
+                        return x == y if op == "eq" else x != y if op == "ne" else x < y if op == "lt" else x <= y
+                    return fallback(env, props)
+            else:
+                f = fallback
+        elif h[0] == "cmp" and h[1] in ("in", "notin"):
+            hc = ctx.head_of(a[1])
+            fallback = generic(t)
+            if hc and hc[0] in ("list", "tuple", "set") and ctx.args_of(a[1]) and \
+                    all((ctx.head_of(m) or ("",))[0] in ("str", "const") or m.is_const() for m in ctx.args_of(a[1])):
+                subs = []
+                for m in ctx.args_of(a[1]):
+                    l_, r_ = (a[0], m) if a[0].key() <= m.key() else (m, a[0])
+                    subs.append(_compile_bool(ctx, ctx.mk(("cmp", "eq"), (l_, r_)), idset, memo))
+                is_in = h[1] == "in"
+
+                def f(env, props, subs=subs, is_in=is_in, fallback=fallback):
+                    if props is None:
+                        return fallback(env, props)
+                    vals = [g(env, props) for g in subs]
+                    if None in vals:
+                        return None
+                    return any(vals) if is_in else not any(vals)
+            else:
+                f = fallback
+    if f is None:
+        f = generic(t)
+    memo[k] = f
+    return f
+
+
 import time     # noqa: E402
 _DEADLINE = [None]      # set by sa.equiv while a function is compared with its reference form
 
@@ -925,10 +1080,12 @@ def order_equiv(ctx, t1, t2, variables, pre=None, lo=1):
     # discover the propositional variables
     props = {}
     probe = {i: Fraction(lo) for i in ids}
+    memo = {}
+    f1, f2 = _compile_bool(ctx, t1, idset, memo), _compile_bool(ctx, t2, idset, memo)
     for _ in range(64):
         before = len(props)
-        for t in (t1, t2):
-            _eval_bool(ctx, t, probe, props)
+        for f_ in (f1, f2):
+            f_(probe, props)
         pending = [k for k, b in props.items() if b is None]
         if not pending and len(props) == before:
             break
@@ -962,7 +1119,7 @@ def order_equiv(ctx, t1, t2, variables, pre=None, lo=1):
             if excl and any(pr[k1] and pr[k2] for k1, k2 in excl):
                 continue        # x == 'a' and x == 'b' cannot both hold
             n0 = len(pr)
-            b1, b2 = _eval_bool(ctx, t1, env, pr), _eval_bool(ctx, t2, env, pr)
+            b1, b2 = f1(env, pr), f2(env, pr)
             if b1 is None or b2 is None or len(pr) != n0:
                 return None     # a variable only visible under this assignment: not decided here
             if b1 != b2:
@@ -1225,7 +1382,10 @@ def values_reaching(v, st, subject, among=None):
 
 def full_term(v, st):
     """enclosing branch conditions and survived guards of st together (invariant under nesting / un-nesting)"""
-    return v.ev._bool("and", [path_term(v, st)] + context_literals(v, st))
+    parts = [path_term(v, st)] + context_literals(v, st)
+    if v.ev.exact:
+        parts += v.ev._structural_reach(st)        # guards that sit inside branches (exact form, see Evaluator)
+    return v.ev._bool("and", parts)
 
 
 # ============================================================================ gated reaching definitions
